@@ -566,6 +566,43 @@ def DataInfo.fromDict (d : Json) : Option DataInfo := do
   let separator ← d.get? "separator"
   some { columns, path, separator, missingDataToken }
 
+/-! ### Initial individual estimates: a DataFrame as `DataFrame.to_dict()` (dict of columns, each a
+    dict index-label -> cell) writes it and `pd.DataFrame.from_dict` reads it.  Index labels are
+    carried as `json.dumps` spells dict keys (`1` -> `"1"`); cells are JSON leaves (floats by name). -/
+
+structure IE where
+  index : List String
+  cols : List (String × List Json)
+  deriving Repr
+
+/-- `df.to_dict()` -/
+def IE.toDict (ie : IE) : Json := .obj (ie.cols.map (fun c => (c.1, .obj (ie.index.zip c.2))))
+
+/-- one column of `DataFrame.from_dict(d)`; columns whose labels differ from the first column's are
+    aligned and NaN-filled by pandas — outside the model (`none`) -/
+def ieColOf (index : List String) (c : String × Json) : Option (String × List Json) :=
+  match c.2 with
+  | .obj kv => if kv.map Prod.fst = index then some (c.1, kv.map Prod.snd) else none
+  | _ => none
+
+/-- `pd.DataFrame.from_dict(d)` for a dict of dicts -/
+def IE.fromDict : Json → Option IE
+  | .obj [] => some { index := [], cols := [] }
+  | .obj ((c0, .obj kv0) :: rest) => do
+    let index := kv0.map Prod.fst
+    let cols ← allSome (ieColOf index) ((c0, .obj kv0) :: rest)
+    some { index, cols }
+  | _ => none
+
+def ieOptToDict : Option IE → Json
+  | none => .null
+  | some ie => ie.toDict
+
+/-- `None if ie_dict is None else pd.DataFrame.from_dict(ie_dict)` -/
+def ieOptFromDict : Json → Option (Option IE)
+  | .null => some none
+  | j => (IE.fromDict j).map some
+
 /-! ### Model -/
 
 structure Model (E M : Type) where
@@ -580,8 +617,8 @@ structure Model (E M : Type) where
   /-- `{str(key): val}`: the dependent-variable symbols by name -/
   dependentVariables : List (String × Json)
   observationTransformation : List (E × E)
-  /-- `DataFrame.to_dict()` or `None`, carried as JSON -/
-  initialIndividualEstimates : Json
+  /-- a DataFrame or `None` -/
+  initialIndividualEstimates : Option IE
   deriving Repr
 
 section
@@ -596,7 +633,7 @@ def Model.toDict (m : Model E M) : Json :=
         ("value_type", m.valueType),
         ("dependent_variables", .obj m.dependentVariables),
         ("observation_transformation", .obj (m.observationTransformation.map (fun p => (c.ser p.1, .str (c.ser p.2))))),
-        ("initial_individual_estimates", m.initialIndividualEstimates)]
+        ("initial_individual_estimates", ieOptToDict m.initialIndividualEstimates)]
 
 /-- one item of `d['observation_transformation']`: key and value are both deserialised -/
 def obsPairOf (p : String × Json) : Option (E × E) := do
@@ -606,7 +643,7 @@ def obsPairOf (p : String × Json) : Option (E × E) := do
 
 /-- `Model.from_dict`; the new model has the default name and description -/
 def Model.fromDict (d : Json) : Option (Model E M) := do
-  let initialIndividualEstimates ← d.get? "initial_individual_estimates"
+  let initialIndividualEstimates ← ieOptFromDict (← d.get? "initial_individual_estimates")
   let dependentVariables ← (← d.get? "dependent_variables").asObj?
   let obs ← (← d.get? "observation_transformation").asObj?
   let observationTransformation ← allSome (obsPairOf c) obs
